@@ -364,16 +364,16 @@ func (r *Repository) ReconcileLocalRSLWithRemote(ctx context.Context, remoteName
 	localUpdatedRefs := set.NewSet[string]()
 	for _, entry := range localOnlyEntries {
 		slog.Debug(fmt.Sprintf("Identified local only entry that must be reapplied '%s'", entry.GetID().String()))
-		if entry, isRefEntry := entry.(*rsl.ReferenceEntry); isRefEntry {
-			localUpdatedRefs.Add(entry.RefName)
+		if entry, isRefUpdater := entry.(rsl.ReferenceUpdaterEntry); isRefUpdater {
+			localUpdatedRefs.Add(entry.GetRefName())
 		}
 	}
 
 	remoteUpdatedRefs := set.NewSet[string]()
 	for _, entry := range remoteOnlyEntries {
 		slog.Debug(fmt.Sprintf("Identified remote only entry '%s'", entry.GetID().String()))
-		if entry, isRefEntry := entry.(*rsl.ReferenceEntry); isRefEntry {
-			remoteUpdatedRefs.Add(entry.RefName)
+		if entry, isRefUpdater := entry.(rsl.ReferenceUpdaterEntry); isRefUpdater {
+			remoteUpdatedRefs.Add(entry.GetRefName())
 		}
 	}
 
@@ -389,6 +389,11 @@ func (r *Repository) ReconcileLocalRSLWithRemote(ctx context.Context, remoteName
 		return fmt.Errorf("unable to update local RSL: %w", err)
 	}
 
+	// reappliedIDs maps the ID of each local only entry to the ID of its
+	// reapplied counterpart, so annotations keep referring to (and skipping)
+	// the entries they were recorded for
+	reappliedIDs := map[string]githash.Hash{}
+
 	// Apply local only entries on top of the new local RSL
 	// localOnlyEntries is in reverse order
 	for i := len(localOnlyEntries) - 1; i >= 0; i-- {
@@ -403,11 +408,28 @@ func (r *Repository) ReconcileLocalRSLWithRemote(ctx context.Context, remoteName
 			if err := rsl.NewReferenceEntry(entry.RefName, entry.TargetID).Commit(r.r, sign); err != nil {
 				return fmt.Errorf("unable to reapply reference entry '%s': %w", entry.ID.String(), err)
 			}
+		case *rsl.PropagationEntry:
+			if err := rsl.NewPropagationEntry(entry.RefName, entry.TargetID, entry.UpstreamRepository, entry.UpstreamEntryID).Commit(r.r, sign); err != nil {
+				return fmt.Errorf("unable to reapply propagation entry '%s': %w", entry.ID.String(), err)
+			}
 		case *rsl.AnnotationEntry:
-			if err := rsl.NewAnnotationEntry(entry.RSLEntryIDs, entry.Skip, entry.Message).Commit(r.r, sign); err != nil {
+			referredEntryIDs := make([]githash.Hash, 0, len(entry.RSLEntryIDs))
+			for _, referredEntryID := range entry.RSLEntryIDs {
+				if reappliedID, wasReapplied := reappliedIDs[referredEntryID.String()]; wasReapplied {
+					referredEntryID = reappliedID
+				}
+				referredEntryIDs = append(referredEntryIDs, referredEntryID)
+			}
+			if err := rsl.NewAnnotationEntry(referredEntryIDs, entry.Skip, entry.Message).Commit(r.r, sign); err != nil {
 				return fmt.Errorf("unable to reapply annotation entry '%s': %w", entry.ID.String(), err)
 			}
 		}
+
+		reappliedTip, err := r.r.GetReference(rsl.Ref)
+		if err != nil {
+			return fmt.Errorf("unable to get current tip of the RSL: %w", err)
+		}
+		reappliedIDs[localOnlyEntries[i].GetID().String()] = reappliedTip
 
 		if slog.Default().Enabled(ctx, slog.LevelDebug) {
 			currentTip, err := r.r.GetReference(rsl.Ref)
